@@ -1,6 +1,7 @@
 import BoxoModel.C36.Safe
 import BoxoModel.C36.Overflow
 import BoxoModel.C36.Answer
+import BoxoModel.C36.Worker
 /-!
 # C36 — Bitswap server sends only wanted, present, permitted data and bounds queues
 
@@ -103,7 +104,7 @@ message), block additions/removals, acks and disconnects, for EVERY pop choice `
   it (wanted, and not since cancelled / dropped by a full want-list / disconnected) and the filter permits it;
 * a HAVE only for a CID the peer currently wants, the filter permits, and whose block has been in the store;
 * a DONT_HAVE only if the peer asked for DONT_HAVE for that CID, and the block is absent at send time or was
-  looked up for that peer when it was denied / absent / of length zero (`A`; see `c36_donthave_partial`). -/
+  looked up for that peer when it was denied / absent (`A`; see `c36_donthave`). -/
 theorem c36_send_safe (cfg : Cfg) (ops : List Op) (hwf : ∀ op ∈ ops, op.WF) (p : Peer) (sel : List Cid) (env : Env)
     (h : (popOnce cfg (reachBoth cfg ops).1 p sel).2 = some env) :
     env.peer = p ∧
@@ -129,13 +130,13 @@ theorem c36_send_safe (cfg : Cfg) (ops : List Op) (hwf : ∀ op ∈ ops, op.WF) 
       exact ⟨hq.2.2 a, Or.inr c⟩
     · exact ⟨hq.2.2 hd, Or.inl hb⟩
 
-/-- **DONT_HAVE only for absent blocks — partial**: guarded by `cfg.size c ≠ 0` (a stored zero-length block is
-reported as not found by `getBlockSizes`: known finding `donthave-for-present-empty-block`). For a block of
-non-zero length and a CID the filter permits, a DONT_HAVE in an envelope means the block is absent at send time,
-or it was absent when some earlier message of that peer asked for it. -/
-theorem c36_donthave_partial (cfg : Cfg) (ops : List Op) (hwf : ∀ op ∈ ops, op.WF) (p : Peer) (sel : List Cid) (env : Env)
+/-- **DONT_HAVE only for absent blocks.** For a CID the filter permits, a DONT_HAVE in an envelope means the
+block is absent at send time, or it was absent when some earlier message of that peer asked for it. (Full
+strength since the fix `getBlockSizes no longer treats size 0 as missing`; it used to need the guard
+`cfg.size c ≠ 0`.) -/
+theorem c36_donthave (cfg : Cfg) (ops : List Op) (hwf : ∀ op ∈ ops, op.WF) (p : Peer) (sel : List Cid) (env : Env)
     (h : (popOnce cfg (reachBoth cfg ops).1 p sel).2 = some env) (c : Cid) (hc : c ∈ env.dontHaves)
-    (hsize : cfg.size c ≠ 0) (hperm : cfg.denied p c = false) :
+    (hperm : cfg.denied p c = false) :
     (reachBoth cfg ops).1.has c = false ∨
     ∃ pre full es post, ops = pre ++ Op.msg p full es :: post ∧ (∃ e ∈ es, isAsk cfg e = true ∧ e.cid = c) ∧
       (reach cfg pre).has c = false := by
@@ -145,10 +146,9 @@ theorem c36_donthave_partial (cfg : Cfg) (ops : List Op) (hwf : ∀ op ∈ ops, 
     rcases specA_origin cfg p c ops {} {} h1 with h2 | ⟨pre, full, es, post, e1, e2, e3⟩
     · simp at h2
     · refine ⟨pre, full, es, post, e1, e2, ?_⟩
-      rcases e3 with e3 | e3 | e3
+      rcases e3 with e3 | e3
       · rw [hperm] at e3; simp at e3
       · exact e3
-      · exact absurd e3 hsize
 
 /-- The ledger never holds a want the peer does not currently have at the protocol level, nor one the filter
 denies (so `WantlistForPeer` reports no cancelled / replaced wants). -/
@@ -205,6 +205,30 @@ theorem c36_accepted_queued_partial (cfg : Cfg) (s : State) (p : Peer) (full : B
   · left; exact ⟨x, hx, by rw [e, htop]⟩
   · right; exact h
 
+/-- **No lost wake-up.** With `n` task workers, after every schedule of pushes (+ signalNewWork), Sent() signals,
+Outbox consumer receives, PopTasks calls, workSignal receives and ticker ticks: if tasks are pending, the workSignal
+token is there or some worker is not asleep in nextEnvelope's wait loop. (So the 100 ms ticker is not needed for
+liveness.) -/
+theorem c36_no_lost_wakeup (n : Nat) (evs : List Worker.WEv) :
+    Worker.Inv (Worker.run { atOutbox := n } evs) ∧ Worker.workers (Worker.run { atOutbox := n } evs) = n :=
+  ⟨Worker.run_inv evs _ (by intro h; simp at h), by rw [Worker.run_workers]; rfl⟩
+
+/-- **Eventually answered, under fairness.** In every reachable worker state with pending tasks (n ≥ 1 workers):
+some worker / consumer event is enabled (consumer takes an outbox slot, a running worker pops, or a sleeping worker
+is woken by the signal), and EVERY worker / consumer event that happens strictly decreases the well-founded order
+(number of pending tasks, then number of workers not yet running). Hence, if workers and the Outbox consumer are
+scheduled fairly and no new work arrives, every pending task is popped after finitely many steps; with
+`c36_answered` every popped task is answered. -/
+theorem c36_worker_progress (n : Nat) (hn : 0 < n) (evs : List Worker.WEv)
+    (hp : (Worker.run { atOutbox := n } evs).pending > 0) :
+    ((Worker.step (Worker.run { atOutbox := n } evs) .take).isSome ∨
+     (Worker.step (Worker.run { atOutbox := n } evs) (.pop 0 false)).isSome ∨
+     (Worker.step (Worker.run { atOutbox := n } evs) .wake).isSome) ∧
+    ∀ e s', Worker.isPush e = false → Worker.step (Worker.run { atOutbox := n } evs) e = some s' →
+      Worker.lt s' (Worker.run { atOutbox := n } evs) := by
+  obtain ⟨hi, hw⟩ := c36_no_lost_wakeup n evs
+  refine ⟨Worker.enabled _ hi (by unfold Worker.workers at hw; omega) hp, fun e s' he hs => Worker.progress _ e s' hp he hs⟩
+
 /-! ## Non-vacuity: concrete histories (limit 2, three CIDs of 10 bytes, all in the store) -/
 
 def exCfg : Cfg where
@@ -243,5 +267,9 @@ want-block is dropped and the peer is only ever sent HAVEs -/
 example : ((popOnce exCfg (reach { exCfg with limit := 2 }
     [.add 0, .add 1, .msg 0 false [{ exW 0 1 with wt := .have }, { exW 1 1 with wt := .have }],
      .msg 0 false [exW 0 1, exW 1 1]]) 0 [0, 1]).2.map fun e => (e.blocks, e.haves)) = some ([], [0, 1]) := by decide
+
+/-- the wake-up is needed and works: one worker asleep, a push arrives, the worker is woken and pops -/
+example : (Worker.run { atOutbox := 1 } [.take, .pop 0 false, .push 0, .wake, .pop 0 false]).pending = 0 := by decide
+example : (Worker.run { atOutbox := 1 } [.take, .pop 0 false, .push 0]).waiting = 1 := by decide
 
 end C36
